@@ -15,7 +15,7 @@ package router
 //verif:stub github.com/tucats/ego/internal/util.FormatDuration = c21FormatDuration
 //verif:dropgo github.com/tucats/ego/internal/caches.expire
 //verif:overlay internal/language/tokens/zz_verif_c21_hook.go <- harness:C22/tokens_hook.go.txt
-//verif:bound histories of 4 (quick) / 5 (thorough) operations from {present the token (through Session.Authenticate, tokens.Validate or tokens.Unwrap), revoke its ID, un-revoke it, flush the revocation list, the decrypted-token cache loses the entry, the revocation cache is purged} over one token with a one-minute lifetime; histories of 3 operations from {present, revoke, un-revoke} over two tokens, the second possibly sealed under a different token key; the clock an arbitrary non-decreasing instant before every operation; one token presented twice with instants that carry arbitrary half seconds; plus every single-byte alteration of a token string
+//verif:bound histories of 4 (quick) / 5 (thorough) operations from {present the token (through Session.Authenticate, tokens.Validate or tokens.Unwrap), revoke its ID, un-revoke it, flush the revocation list, the decrypted-token cache loses the entry, the revocation cache is purged} over one token with a one-minute lifetime; histories of 3 operations from {present, revoke, un-revoke} over two tokens, the second possibly sealed under a different token key; the clock an arbitrary non-decreasing instant before every operation, all within one year of the first; one token presented twice with instants that carry arbitrary half seconds; plus every single-byte alteration of a token string
 //verif:assume under the engine util.Encrypt/Decrypt are an ideal authenticated cipher (a ciphertext decrypts only under its own key and only if unaltered: util.Decrypt itself is property C27) and encoding/json round-trips the Token struct; the revocation table returns exactly the rows whose id matches. The native replay twin uses the real AES-GCM code, the real JSON codec, the real SQLite store and a testing/synctest clock.
 //verif:bound one validation request racing one revocation of the same token (every interleaving at lock acquisitions), followed by one request after both have finished
 //verif:outside more than two concurrent requests; changing the token key while tokens are cached; the remote-authority mode; store faults; cluster peers
@@ -54,7 +54,7 @@ func c21Label(prefix string, n int) string {
 	d := string(rune('0' + n))
 	// labels differ in three bytes (no single-byte change maps one to another)
 	// and are long, like real ciphertexts: a token string has well over 64 characters
-	return prefix + d + d + d + "........................................"
+	return prefix + d + d + d + "........................"
 }
 
 func c21Encrypt(data, key string) (string, error) {
@@ -243,6 +243,9 @@ func c21WorldClock(realClock bool, body func()) {
 		run = func(f func()) { f() }
 	}
 	run(func() {
+		// one year is ample for one-minute tokens, and keeps the native replay
+		// (whose cache sweepers wake once per fake minute) fast
+		sym.ClockSpan(366 * 24 * 3600)
 		caches.Purge(caches.TokenCache)
 		caches.Purge(caches.BlacklistCache)
 		// entries are only lost through explicit operations: natively the sweeper
